@@ -68,6 +68,11 @@ var c10Tree = map[string]string{
 	"repo/sub/.git/HEAD":                 "ref: refs/heads/main\n",
 	"repo/sub/.github/actionlint.yaml":   "self-hosted-runner:\n  labels:\n    - sub-runner\n",
 	"repo/sub/.github/workflows/s3d.yml": "on: push\njobs:\n  d:\n    runs-on: sub-runner\n    steps:\n      - run: echo ${{ vars.ANYTHING }}\n  e:\n    runs-on: foo-runner\n    steps:\n      - run: echo\n",
+	// ---- repository nested inside "repo" whose .git is a FILE (linked worktree / submodule)
+	"repo/wt/.git":                          "gitdir: ../.git/worktrees/wt\n",
+	"repo/wt/.github/actionlint.yaml":       "self-hosted-runner:\n  labels:\n    - wt-runner\nconfig-variables:\n  - ONLY_IN_WT\n",
+	"repo/wt/.github/actions/ok/action.yml": "name: ok\ndescription: the action of the nested repository\ninputs:\n  token:\n    required: true\nruns:\n  using: composite\n  steps:\n    - run: echo\n      shell: bash\n",
+	"repo/wt/.github/workflows/s3e.yml":     "on: push\njobs:\n  d:\n    runs-on: wt-runner\n    steps:\n      - run: echo ${{ vars.ONLY_IN_WT }} ${{ vars.ZZZ_VAR }}\n      - uses: ./.github/actions/ok\n  e:\n    runs-on: foo-runner\n    steps:\n      - run: echo\n",
 }
 
 type c10Scenario struct {
@@ -82,6 +87,7 @@ var c10Scenarios = []c10Scenario{
 	{Name: "S1-shared-local-action", Files: []string{"repo/.github/workflows/s1a.yml", "repo/.github/workflows/s1b.yml"}, MinFiles: 2},
 	{Name: "S2-caller-callee", Files: []string{"repo/.github/workflows/s2caller.yml", "repo/.github/workflows/s2callee.yml", "repo/.github/workflows/s2caller2.yml"}, MinFiles: 2},
 	{Name: "S3-sibling-repositories", Files: []string{"repo/.github/workflows/s3a.yml", "repo2/.github/workflows/s3c.yml", "repo/sub/.github/workflows/s3d.yml"}, MinFiles: 2},
+	{Name: "S3b-nested-repository-git-file", Files: []string{"repo/.github/workflows/s3a.yml", "repo/wt/.github/workflows/s3e.yml", "repo/.github/workflows/s1b.yml"}, MinFiles: 2},
 	{Name: "S4-shared-slices", Files: []string{"repo/.github/workflows/s4a.yml", "repo/.github/workflows/s4b.yml"}, MinFiles: 1},
 	{Name: "S5-broken-callees", Files: []string{"repo/.github/workflows/s5a.yml", "repo/.github/workflows/s5b.yml"}, MinFiles: 2,
 		Once: []string{"could not parse action metadata", "description is required in metadata of \"nodesc\"", "could not read reusable workflow file"}},
@@ -172,7 +178,7 @@ func TestVerifC10(t *testing.T) {
 	}
 	r.Bounds["preemptions"] = maxPreempt
 	r.Bounds["semaphore_sizes"] = []int{1, 2}
-	r.Extra["rule"] = "11 scenarios (shared local action, caller+callee, sibling/nested repositories, shared-slice messages, broken callees, files that stop early, files outside any repository (also in a directory above the repositories), -format) x every subset and argument order of their files x semaphore size {1,2} x all interleavings of the real LintFiles up to the preemption bound; oracle: per-file diagnostics = LintFile alone, once-per-run defects exactly once, fingerprints of shared tables and configs unchanged at every scheduling point; class = (scenario, file order, per-file diagnostic counts); non-trivial = more than one file with diagnostics"
+	r.Extra["rule"] = "12 scenarios (shared local action, caller+callee, sibling/nested repositories (.git directory and .git file), shared-slice messages, broken callees, files that stop early, files outside any repository (also in a directory above the repositories), -format) x every subset and argument order of their files x semaphore size {1,2} x all interleavings of the real LintFiles up to the preemption bound; oracle: per-file diagnostics = LintFile alone, once-per-run defects exactly once, fingerprints of shared tables and configs unchanged at every scheduling point; class = (scenario, file order, per-file diagnostic counts); non-trivial = more than one file with diagnostics"
 	r.Extra["assumptions"] = []string{"data races are outside a cooperative scheduler's reach (supported by a separate free-running -race pass, not decided here)", "GOMAXPROCS is subsumed by interleavings under data-race freedom"}
 	root := vTempDir(t, "c10-")
 	vWriteFiles(t, root, c10Tree)
